@@ -25,15 +25,12 @@ Duplicated declarations (same method, same pattern) are one policy whose remedie
 all of them in the order they are written (`group`); the reported policy URL is the text of one of them.
 
 Classes in which the code still violates this (decidable classifiers = excluded hypotheses of the
-`_partial` theorems = finding ids named by the judge).  F13a and F13e are repaired (fixes/F13a.patch,
-fixes/F13e.patch): no hypothesis about cross-matching or duplicated declarations is left in (S)–(O).
-  F13b `wildDisplaced`  a matching `*` pattern is reached with zero segments or past another pattern's path
-  F13c `boundaryMix`    host/path boundary: a declared pattern follows the URL across `/`
-        (`cfgBoundaryMix`: ... follows another declared URL, for order independence)
-  F13d `emptySegment`   the URL has an empty segment (`{p}` accepts it)
-  F13f `starQuirk`      a declared pattern has a `*` that is not its last part (`validateURL` accepts it when it
-                        equals the last part); the trie keeps it cut after the first `*`, without value, and it
-                        replaces the wildcard node of `X/*` when declared later (order dependence)
+`_partial` theorems = finding ids named by the judge).  Repaired and no longer excluded: F13a, F13e
+(fixes/F13a.patch, F13e.patch, builder) and F13b, F13d, F13f and the wildcard half of F13c (fixes/F13b.patch,
+F13d.patch, F13f.patch, F13c-wildcard.patch, trie).
+  F13c `boundaryMix`    host/path boundary, literal/parameter half: trie children are keyed by VALUE only, so a
+                        declared pattern can follow the URL across `/` (`a.com/x/y` declared after the host
+                        `a.com.x` answers for `a.com.x/y`); `cfgBoundaryMix`: ... follows another declared URL
   F13g `crossMatch`     ACCEPTANCE depends on the order: `checkForDuplicates` looks the new URL up as a request,
                         so `x/{id}` then `x/me` with remedies of one type is rejected and the reverse accepted
                         (judged only: the theorems speak about declaration lists that build)
@@ -117,21 +114,11 @@ def observe (pt : PTree) (g : Globals) (method : String) (us : List Part) : Answ
 def crossMatch (eps : List Endpoint) : Bool :=
   eps.any fun e1 => eps.any fun e2 => e1.parts != e2.parts && matchesLax (trunc e1.parts) e2.parts
 
-/-- F13f: some declared pattern has a `*` before its last part. -/
-def starQuirk (eps : List Endpoint) : Bool := eps.any fun e => !wildLast e.parts
-
 /-- F13c: some declared pattern follows the URL across the host/path boundary. -/
 def boundaryMix (eps : List Endpoint) (u : Url) : Bool := eps.any fun e => !flagsOK e.parts u
 
 /-- F13c among the declarations themselves: a declared pattern follows another declared URL across `/`. -/
 def cfgBoundaryMix (eps : List Endpoint) : Bool := eps.any fun e => boundaryMix eps e.parts
-
-/-- F13d -/
-def emptySegment (u : Url) : Bool := !urlNonEmpty u
-
-/-- F13b: some declared `*` pattern matches `u` with nothing left for the `*`, or another declared pattern
-    runs along `u` through the position of that `*`. -/
-def wildDisplaced (eps : List Endpoint) (u : Url) : Bool := displaced (eps.map (fun e => trunc e.parts)) u
 
 /-! ### the property, per request -/
 
@@ -211,13 +198,9 @@ def roundsAgree (r1 r2 : Round) : Bool :=
 /-! ### verdicts (used by the judge) -/
 
 def classifyReq (eps : List Endpoint) (u : Url) : String :=
-  if boundaryMix eps u then "F13c"
-  else if emptySegment u then "F13d"
-  else "-"
+  if boundaryMix eps u then "F13c" else "-"
 
-def classifyNorm (eps : List Endpoint) (u : Url) : String :=
-  if classifyReq eps u != "-" then classifyReq eps u
-  else if wildDisplaced eps u then "F13b" else "-"
+def classifyNorm (eps : List Endpoint) (u : Url) : String := classifyReq eps u
 
 def reqVerdicts (g : Globals) (r : Round) : List Verdict :=
   if r.built != "ok" then [] else
@@ -239,9 +222,7 @@ def dispVerdicts (g : Globals) (r : Round) : List Verdict :=
     else some ⟨classifyReq r.eps d.parts, s!"dispatcher-applied-unentitled-remedy {d.method} {d.url} first={d.first}"⟩
 
 def classifyOrder (eps : List Endpoint) : String :=
-  if cfgBoundaryMix eps then "F13c"
-  else if starQuirk eps then "F13f"
-  else "-"
+  if cfgBoundaryMix eps then "F13c" else "-"
 
 def orderVerdicts : List Round → List Verdict
   | [] => []
@@ -269,7 +250,7 @@ def trieVerdicts (ins : List (List Part × Nat)) (looks : List (List Part × Loo
   looks.filterMap fun (u, a) =>
     if trieSoundOk ins u a then none
     else
-      let cls := if ins.any (fun e => !flagsOK e.1 u) then "F13c" else if emptySegment u then "F13d" else "-"
+      let cls := if ins.any (fun e => !flagsOK e.1 u) then "F13c" else "-"
       some ⟨cls, s!"trie-lookup-unsound v={a.value.getD 0} norm={a.norm}"⟩
 
 end LunarVerif.C13
